@@ -21,6 +21,11 @@ def gen_scenario(R):
         script, kind = gen_script(m, nitems, R)
         reqs.append({"id": "q%d" % (i + 1), "method": m, "tokens": toks, "script": script, "kind": kind, "nitems": nitems})
     lines = ["1|MPI|S|ARI.version|S|1.9.1\r\n"] + ["|".join([r["id"], r["method"]] + r["tokens"]) + R.choice(["\r\n", "\n"]) for r in reqs]
+    # some connections end with an honoured close request (the agreed version supports close packets): `Server.close()` runs
+    # on the reader thread while pool tasks may still be queued or running
+    close = R.random() < 0.3
+    if close:
+        lines.append("0|CLOSE%s\r\n" % R.choice(["", "|S|reason|S|shutdown"]))
     mode = R.choice(["line", "all", "merge"])
     if mode == "line":
         chunks = lines
@@ -42,8 +47,10 @@ def gen_scenario(R):
         # request i's first adapter call returns only after the reply to the later request j has been written
         if reqs[j]["kind"] in ("ok", "raise"):
             block = (i, reqs[j]["id"], reqs[j]["method"])
+    if close:
+        block = None          # a call waiting for a reply that the stopped writer will never write would never return
     return {"kind": "meta", "pool_arg": pool_arg, "pool": pool, "requests": reqs, "chunks": chunks,
-            "handler": R.choice(["absent", True, False]), "block": block}
+            "handler": R.choice(["absent", True, False]), "block": block, "close": close}
 
 
 def run_real(scn, choose):
@@ -111,8 +118,8 @@ def run_real(scn, choose):
         ex = srv._executor
         sq = srv._request_manager._reply_sender._send_queue if srv._request_manager else None
         done = sum(1 for t in sched.threads.values() if t.kind == "task" and t.done)
-        return "pool:q=%s;run=%d|sendq=%d|init=%s|done=%d" % (",".join(ex.workq), ex.running, len(sq.items) if sq else 0,
-                                                              "t" if srv.init_expected else "f", done)
+        return "pool:q=%s;run=%d|sendq=%d|init=%s|done=%d|sock=%s" % (",".join(ex.workq), ex.running, len(sq.items) if sq else 0,
+                                                                      "t" if srv.init_expected else "f", done, "closed" if sock.closed else "open")
 
     def main():
         srv.start()
@@ -148,6 +155,9 @@ def run_real(scn, choose):
         run.sent = list(sock.sent)
         run.errors = [(t.name, repr(t.error)) for t in sched.threads.values() if t.error is not None]
         run.pool_size = srv._executor._max_workers
+        # who is still alive, and which pool tasks ran to completion, BEFORE the scenario is torn down
+        run.alive = {t.name: t.op for t in sched.threads.values() if not t.done}
+        run.tasks_unfinished = [t.name for t in sched.threads.values() if t.kind == "task" and not (t.started and t.done)]
     finally:
         sched.teardown()
         shim.uninstall(saved)
@@ -182,6 +192,10 @@ def driver_lines(run):
             o = "aend " + ("R " + ari.py_tok(out[1]) if out[0] == "ret" else "E " + ari.exc_tok(out[1]))
         elif kind in ("recv", "get", "send"):
             o = kind
+        elif kind == "join":
+            o = "join"
+        elif kind == "pool-shutdown":
+            o = "poolwait"
         elif kind == "deliver":
             o = "deliver " + C.hx(op[1])
         else:
@@ -200,6 +214,8 @@ def driver_lines(run):
                 effs.append("handler")
             elif e[0] == "sent":
                 effs.append("sent:" + C.hx(e[1].decode("utf-8")))
+            elif e[0] == "socket-close":
+                effs.append("sockclose")
         nxt = list(chunks[n + 1]["enabled"] if n + 1 < len(chunks) else run.final_enabled)
         # a task whose adapter call is held back by the environment is "inside the call" for the model
         nxt += [b for b in (chunks[n + 1].get("blocked", []) if n + 1 < len(chunks) else run.final_blocked) if b not in nxt]
@@ -245,7 +261,12 @@ def oracle_c04(run, A, V):
         shape = r["kind"] == "wrong" and not wrong and any(
             kd == "ret" and r["method"] in ("GIS", "GSC") and v and not isinstance(v, (list, tuple, str)) for kd, v in r["script"])
         want_h = 0 if scn["handler"] == "absent" else 1
-        if wrong or shape:
+        if scn.get("close"):
+            # the connection is being closed by the Proxy Adapter (outside C04's quantifier): a task that finishes after the
+            # writer has stopped is not answered any more — every accepted task still runs to completion (C20), which the
+            # dispatch checks below and the lock-step comparison cover
+            pass
+        elif wrong or shape:
             if reps or len(hs) != want_h:
                 V("wrong-typed-return", "request %s (%s) with a wrong-typed return: %d replies, %d handler notifications" % (r["id"], r["method"], len(reps), len(hs)))
         else:
@@ -301,4 +322,33 @@ def oracle_c18(run, A, V):
             V("blocked-call-stops-server", "an adapter call waiting for the reply to a later request never returned although %d workers exist" % run.pool_size)
 
 
-ORACLES = {"C04": oracle_c04, "C18": oracle_c18}
+def oracle_c20(run, A, V):
+    """an honoured close request (id 0, agreed version with close packets) as the last line of the connection"""
+    scn = run.scn
+    if not scn.get("close"):
+        return
+    if run.status != "quiescent":
+        V("close-does-not-finish", "after the close request the run ended with status %s" % run.status)
+        return
+    for name in ("R", "W"):
+        if name in run.alive:
+            V("close-threads", "thread %s still alive after an honoured close request (parked at %r)" % (name, run.alive[name]))
+    if run.sock.close_calls != 1:
+        V("close-socket", "socket closed %d times on an honoured close request" % run.sock.close_calls)
+    if run.tasks_unfinished:
+        V("close-pool", "accepted pool tasks did not complete: %r" % run.tasks_unfinished)
+    hs = [e for ch in run.chunks for e in ch["events"] if e[0] == "handler" and e[1] == "R"]
+    if hs:
+        V("close-invokes-handler", "the exception handler was invoked on the reader thread while closing: %r" % hs)
+    io = [e for ch in run.chunks for e in ch["events"] if e[0] in ("exit", "send-on-closed", "recv-on-closed")]
+    if io:
+        V("own-close-reported", "the server's own close() surfaced as an I/O problem: %r" % io[:3])
+    # the writer stopped before the socket was closed, and the pool was idle then
+    t_close = next((t for t, ch in enumerate(run.chunks) if any(e[0] == "socket-close" for e in ch["events"])), None)
+    if t_close is not None:
+        later_sends = [t for t, ch in enumerate(run.chunks) if t > t_close and ch["tid"] == "W"]
+        if later_sends:
+            V("writer-after-close", "the writer thread ran after the socket had been closed")
+
+
+ORACLES = {"C04": oracle_c04, "C18": oracle_c18, "C20": oracle_c20}
